@@ -92,6 +92,7 @@ def ext_one_hot(args, kwargs, st, eng):
     """kappadata.utils.one_hot.to_one_hot_vector(label, n_classes): the one-hot row of an integer label (assumed contract)"""
     y = eng.deref(args[0], st)
     n = eng.deref(kwargs.get("n_classes", args[1] if len(args) > 1 else None), st)
+    eng.used_trusted.add("model:pyvc/libtensor.py opaque tensors (TScale / TAdd / OneHot uninterpreted, no algebraic law)")
     return AbsTensor(OneHot(_e.to_int(y), _e.to_int(n)))
 
 
@@ -427,6 +428,7 @@ def mix_externals(n_classes_dims=1):
 
     def get_item(a, k, s, e):
         name = item_name(k.get("item", a[1] if len(a) > 1 else None), s, e)
+        e.used_trusted.add("model:pyvc/libtensor.py batch tensors (opaque rows; in-place ops = new version of the same handle; TScale / TAdd / TPaste uninterpreted; roll / flip / gather / clone as row maps)")
         s.assume(N >= 1, *[d >= 1 for d in dims[name]])
         bt = AbsBT(_newid(), N, dims[name])
         v = z3.Int(uid("btver"))
